@@ -11,12 +11,14 @@ if [ -d $src ]; then cp $src/patch.diff $src/demo_test.go $dst/ 2>/dev/null; cp 
 dir=$(head -3 $dst/demo_test.go | grep -o 'package dir: *[^ ]*' | sed 's/package dir: *//')
 [ -z "$dir" ] && { echo "no package dir in demo"; exit 2; }
 ev=/tmp/ev-$sid
+runpat=$(grep -o '^func Test[A-Za-z0-9_]*' $dst/demo_test.go | sed 's/func //' | paste -sd'|')
+[ -z "$runpat" ] && runpat='Demo|demo|Seed|C[0-9][0-9]'
 git -C /repo worktree remove --force $ev 2>/dev/null
 git -C /repo worktree add -q $ev HEAD || exit 2
 cp $dst/demo_test.go $ev/$dir/zz_demo_test.go
-( cd $ev && go test -vet=off -count=1 -run 'Demo|demo|Seed|C[0-9][0-9]' ./$dir/ > /tmp/ev-$sid.clean.log 2>&1 ); clean=$?
+( cd $ev && go test -vet=off -count=1 -run "^($runpat)\$" ./$dir/ > /tmp/ev-$sid.clean.log 2>&1 ); clean=$?
 ( cd $ev && git apply $dst/patch.diff ) || { echo "patch does not apply"; git -C /repo worktree remove --force $ev; exit 2; }
-( cd $ev && go test -vet=off -count=1 -run 'Demo|demo|Seed|C[0-9][0-9]' ./$dir/ > /tmp/ev-$sid.mut.log 2>&1 ); mut=$?
+( cd $ev && go test -vet=off -count=1 -run "^($runpat)\$" ./$dir/ > /tmp/ev-$sid.mut.log 2>&1 ); mut=$?
 rm $ev/$dir/zz_demo_test.go
 ( cd $ev && go build ./... && go test -vet=off -count=1 ./... > /tmp/ev-$sid.suite.log 2>&1 ); suite=$?
 echo "demo on clean tree: exit $clean (want 0); demo with change: exit $mut (want !=0); suite with change: exit $suite (want 0)"
